@@ -169,7 +169,15 @@ fn drive<R: tungstenite::handshake::HandshakeRole>(
     log_i: impl Fn(&mut tungstenite::handshake::MidHandshake<R>),
 ) -> Result<R::FinalResult, Result<tungstenite::Error, tungstenite::handshake::MidHandshake<R>>> {
     let mut cur = first;
+    let mut rounds = 0usize;
     loop {
+        rounds += 1;
+        if rounds > 5000 {
+            // a handshake that keeps getting Interrupted for ever is reported by the caller's transport budget
+            if let Err(HandshakeError::Interrupted(mid)) = cur {
+                return Err(Err(mid));
+            }
+        }
         match cur {
             Ok(v) => return Ok(v),
             Err(HandshakeError::Failure(e)) => return Err(Ok(e)),
@@ -293,7 +301,21 @@ fn substitute_accept(data: &mut Vec<u8>, accept: &str) {
             let nn = (data[i + 6] - b'0') as usize * 10 + (data[i + 7] - b'0') as usize;
             let c = data[i + 8];
             let mut a = accept.as_bytes().to_vec();
-            if nn < a.len() {
+            match nn {
+                90 => a.extend_from_slice(b"junk"),
+                91 => {
+                    a.pop();
+                }
+                92 => a.clear(),
+                93 => {
+                    let b = a.clone();
+                    a.extend_from_slice(&b);
+                }
+                94 => a.push(b' '),
+                95 => a.insert(0, b'x'),
+                _ => {}
+            }
+            if nn < a.len() && nn < 90 {
                 if c == b'^' {
                     // flip the ASCII case of the character (a digit/symbol becomes a different symbol)
                     a[nn] = if a[nn].is_ascii_alphabetic() { a[nn] ^ 0x20 } else if a[nn] == b'A' { b'B' } else { b'A' };
@@ -301,8 +323,9 @@ fn substitute_accept(data: &mut Vec<u8>, accept: &str) {
                     a[nn] = if a[nn] == c { if c == b'A' { b'B' } else { b'A' } } else { c };
                 }
             }
+            let alen = a.len();
             data.splice(i..i + 28, a.iter().copied());
-            i += accept.len();
+            i += alen.max(1);
         } else {
             i += 1;
         }
@@ -361,11 +384,15 @@ fn run_client(f: &[&str]) -> Result<(String, String), String> {
         }
     }
     substitute_accept(&mut all, &accept);
+    // re-split at the original chunk lengths (a length-changing substitution lands in the last chunk)
+    let ndata = script.rds.iter().filter(|r| matches!(r, Rd::Data(_))).count();
     let mut pos = 0;
+    let mut seen = 0;
     for r in script.rds.iter_mut() {
         if let Rd::Data(d) = r {
-            let n = d.len();
-            d.copy_from_slice(&all[pos..pos + n]);
+            seen += 1;
+            let n = if seen == ndata { all.len().saturating_sub(pos) } else { d.len().min(all.len().saturating_sub(pos)) };
+            *d = all[pos..pos + n].to_vec();
             pos += n;
         }
     }
@@ -537,7 +564,20 @@ pub fn run_request_key_stats(f: &[&str]) -> String {
     let mut sorted = keys.clone();
     sorted.sort();
     sorted.dedup();
-    format!("requests={} distinct={} wellformed16={}", n, sorted.len(), ok16)
+    // structure of the 24 base64 characters: distinct values per character position (the 22 data positions) and
+    // keys whose decoded 16 bytes would repeat a 3-byte group (base64 quartets 0..4 == 4..8 == ...)
+    let mut minpos = usize::MAX;
+    for pos in 0..21 {
+        let mut seen = [false; 256];
+        for k in &keys {
+            if k.len() == 24 {
+                seen[k[pos] as usize] = true;
+            }
+        }
+        minpos = minpos.min(seen.iter().filter(|x| **x).count());
+    }
+    let repeated = keys.iter().filter(|k| k.len() == 24 && (k[0..4] == k[4..8] || k[4..8] == k[8..12] || k[0..8] == k[8..16])).count();
+    format!("requests={} distinct={} wellformed16={} minposvals={} repeated={}", n, sorted.len(), ok16, minpos, repeated)
 }
 
 /// CB id urihex subprotos extra -> M: CB id authority|none path|none key extra(lower-case names) subprotos
